@@ -364,13 +364,14 @@ class Baton:
         self.alive = set(range(n))
         self.turn = 0
         self.idx = {}
+        self.errors = []
 
     def _me(self):
         return self.idx.get(threading.get_ident())
 
     def handoff(self):
         me = self._me()
-        if me is None:
+        if me is None or me not in self.alive:
             return
         with self.cv:
             others = sorted(self.alive - {me})
@@ -388,7 +389,13 @@ class Baton:
                 while self.turn != k:
                     self.cv.wait()
             try:
-                work(k)
+                try:
+                    work(k)
+                except BaseException as e:   # noqa
+                    # caught HERE, so that the frames of work() (and the generators they abandon) are released while this
+                    # thread still holds the turn; a worker that has left the schedule must not wait for a turn again
+                    self.errors.append('%d: %s: %s' % (k, type(e).__name__, e))
+                    e = None
             finally:
                 with self.cv:
                     self.alive.discard(k)
@@ -400,6 +407,8 @@ class Baton:
             t.start()
         for t in ts:
             t.join()
+        if self.errors:
+            raise RuntimeError('worker threads ended with: ' + '; '.join(sorted(self.errors)))
 
 
 def run_program(prog, root, lib, k):
